@@ -83,6 +83,10 @@ class PathCtx:
         self.solver.add(c)
 
     def check(self, *extra):
+        # the wall budget of the exploration also ends a path in mid-flight (a path whose every fork needs a long
+        # solver call would otherwise outlive the budget by hours): the path is recorded as unsupported / truncated
+        if _DEADLINE[0] and time.time() > _DEADLINE[0] + 5:
+            raise Unsupported('wall budget of this exploration used up inside a path (%d solver calls on it)' % self.nq)
         self.nq += 1
         t = time.time()
         r = str(self.solver.check(*extra))
@@ -1031,6 +1035,9 @@ class Stats:
         self.truncated = self.truncated or o.truncated
 
 
+_DEADLINE = [None]
+
+
 def _run_path(fn, trace):
     global CTX
     CTX = PathCtx(trace)
@@ -1063,6 +1070,7 @@ def _run_path(fn, trace):
 
 
 def _dfs(fn, start, max_paths, deadline, collect):
+    _DEADLINE[0] = deadline
     stack = [list(start)]
     st = Stats()
     res = []
